@@ -52,8 +52,8 @@ CHECKS = {
    note="Trusted: simulation hooks, refdns, the reference cache (harness/src/props/browser.rs). The upper bound never shortens lifetimes for verify calls."),
  "C05": dict(engine=E3, design="6/C05",
    technique="stateful property-based testing in the deterministic daemon simulation with a reference cache and forced wake-ups at every model expiry: generated announcement / goodbye / silence / refresh / verify histories; ServiceRemoved is judged never-early, on-time and final",
-   text="Exploration: 2.5e4 (quick) / 7e5 (thorough) generated departure histories over horizons up to 75 min (about 1.4 judged removals per case; causes goodbye, PTR expiry, SRV expiry, last address expiry, verify deadline each with a floor). Never early: not while PTR, SRV and an address of the SRV's host all have more than a second left (before and after the datagrams of the iteration). On time: on the channel by the end of the step taken at the expiry or the next one. Final: no ServiceResolved afterwards without new records.",
-   note="Trusted: simulation hooks, refdns, the reference cache. Instances keep host and port (one SRV at a time); all instances belong to browsed types; stop_browse is not part of these histories."),
+   text="Exploration: 2.5e4 (quick) / 7e5 (thorough) generated departure histories over horizons up to 75 min (about 1.4 judged removals per case; causes goodbye, PTR expiry, SRV expiry, last address expiry, verify deadline each with a floor). Never early: not while PTR, SRV and an address of the SRV's host all have more than a second left (before and after the datagrams of the iteration). On time: on the channel by the end of the step taken at the expiry or the next one. Final: no ServiceResolved afterwards without new records. Second part (two-listeners): 8e3 (quick) / 3e5 (thorough) histories of one instance listed under its type and a subtype with both browsed at once (announcements, goodbyes of all / SRV / PTRs, silence, stop_browse of either search); differential oracle between the two listeners (ServiceRemoved reaches both in the same step or neither) plus an expiry model for never-early / on-time.",
+   note="Trusted: simulation hooks, refdns, the reference cache. Instances keep host and port (one SRV at a time); all instances belong to browsed types; stop_browse is part of the two-listeners histories only, where both PTR records always arrive together with one TTL (>= 2 s) and no responder answers refreshes."),
  "C04": dict(engine=E3, design="6/C04",
    technique="stateful property-based testing in the deterministic daemon simulation with a reference cache: generated partitions/orderings of instance record sets into packets, PTR-only arrivals with a scripted responder answering the daemon's follow-up queries, and go-away/come-back histories; completeness invariant at the end of every step",
    text="Exploration: 3e4 (quick) / 9e5 (thorough) generated arrival histories (~2 complete sets and ~1 follow-up round per case). Invariant at the end of every step: an instance whose PTR, SRV, TXT and an address are live in the lower-bound reference cache since before the previous step has been reported by ServiceFound and a ServiceResolved equal to the cache's view (host, port, address set, TXT). Follow-up: an instance found with only its PTR is asked for, by its exact label sequence, within 500 ms.",
